@@ -301,6 +301,36 @@ def checkProgram (l : List Item) : Option Bool :=
   | some (l', [')']) => some (eqItems l' l)
   | _ => some false
 
+
+/-! ## shape of the closed fragment of `structure_roundtrip_partial` (for counting) -/
+
+mutual
+  def closedCompound : CompoundCommand → Bool
+    | .grouping l => closedList l
+    | .subshell l => closedList l
+    | .whileLoop c b => closedList c && closedList b
+    | .untilLoop c b => closedList c && closedList b
+    | .ifCmd c b es _ e => closedList c && closedList b && closedElifs es && closedList e
+    | .forLoop n vs b => tokWordModelled n && (vs.getD []).all tokWordModelled && closedList b
+    | .caseCmd _ _ => false
+  def closedElifs : List ElifThen → Bool
+    | [] => true
+    | .mk c b :: rest => closedList c && closedList b && closedElifs rest
+  def closedCommand : Command → Bool
+    | .simple c => simpleStructModelled c
+    | .compound c rs => closedCompound c && rs.all redirModelled
+    | .function kw n c rs => !kw && tokWordModelled n && closedCompound c && rs.all redirModelled
+  def closedCommands : List Command → Bool
+    | [] => true
+    | c :: cs => closedCommand c && closedCommands cs
+  def closedRest : List AndOrRest → Bool
+    | [] => true
+    | .mk _ (.mk cs _) :: rest => closedCommands cs && closedRest rest
+  def closedList : List Item → Bool
+    | [] => true
+    | .mk (.mk (.mk cs _) rest) _ :: is => closedCommands cs && closedRest rest && closedList is
+end
+
 /-- second output column of the driver -/
 def specColumn (l : List Item) : String :=
   let rs := (listWords l).filterMap checkWord
@@ -310,6 +340,6 @@ def specColumn (l : List Item) : String :=
   else if !rs.all id then "FAIL:a-printed-word-does-not-read-back"
   else if !ss.all id then "FAIL:a-printed-simple-command-does-not-read-back"
   else if !ps.all id then "FAIL:the-printed-program-does-not-read-back"
-  else if ps.isEmpty then "ok" else "ok+structure"
+  else if ps.isEmpty then "ok" else if closedList l then "ok+structure+closed" else "ok+structure"
 
 end YashModel.Syntax
